@@ -1,8 +1,7 @@
 (* ConnEvents.v — which control events can occur in which state (definitions only).
    * a received message is consulted by the decoder of the state it arrives in (skind);
    * the environment's answers are only looked at where the code asks for them;
-   * environment assumptions (realisability): Run() is called once; the websocket layer
-     delivers no message once the transport is closed (property C13); the SPINE writer is
+   * environment assumptions (realisability): Run() is called once; the SPINE writer is
      handed out by SetupRemoteDevice, so SPINE writes only occur after it. *)
 From Ship Require Import Base Conn.
 
@@ -52,7 +51,6 @@ Definition cap_wf (w : option nat) : option nat :=
 
 (* the control events that can occur in control state c *)
 Definition recv_evs (c : cs) : list cev :=
-  if wclosed c then [] else
     [CRecv DgErr NoClose MGarbage; CRecv DgNoPayload NoClose MGarbage; CRecv DgOk NoClose MGarbage;
      CRecv NotDatagram ClAnnounce MGarbage; CRecv NotDatagram ClConfirm MGarbage;
      CRecv NotDatagram ClOther MGarbage]
